@@ -161,7 +161,10 @@ class AutomatonProbe(object):
 # ---- label construction -------------------------------------------------------------------
 
 def make_label(rng, cat, sep, allow):
-    gf = rng.choice(['', '', 'SB', 'HD', 'OA', 'MO']) if allow else ''
+    gf = rng.choice(['', '', 'SB', 'HD', 'OA', 'MO',
+                     # several function tags: everything after the first
+                     # separator is the function
+                     'LOC' + sep + 'PRD', 'SBJ' + sep + 'TPC']) if allow else ''
     gap = rng.choice(['', '', '', '1']) if allow else ''
     co = rng.choice(['', '', '2', '13']) if allow else ''
     head = "'" if allow and rng.random() < 0.1 else ''
